@@ -20,6 +20,11 @@ import collections, hashlib, json, os, re
 
 LEVEL = "proof"
 SCRATCH = ("fresh", "single", "initial")
+# share of generated cases that each known finding excuses on the unchanged tree (measured, see the report), and a floor
+# (two runs of 20 000 cases, seeds 11 and 12: cases excused per finding, first matching finding in file order)
+KF_BUDGET = {"KF-C07-1": (0.0044, 6), "KF-C07-2": (0.0016, 6), "KF-C07-3": (0.0059, 6), "KF-C07-4": (0.0031, 6),
+             "KF-C07-5": (0.025, 6), "KF-C07-6": (0.0046, 6), "KF-C07-7": (0.0037, 6), "KF-C07-8": (0.001, 6),
+             "KF-C07-9": (0.0005, 6), "KF-C07-10": (0.0003, 4), "KF-C07-11": (0.0001, 4)}
 
 
 class Rec:
@@ -223,8 +228,12 @@ def classify(rec, v):
             and info.get("bad_with_zero_param") == info.get("bad"):
         tags.append("solution_lost_only_where_a_parameter_is_zero")
     if obl == "eval" and nbad > 0 and info.get("bad_infeasible_point") == info.get("bad"):
-        # every wrong valuation yields a point outside the feasible region: a guard (sign test of a row) was lost
+        # every wrong valuation yields a point outside the feasible region (a row violated or a negative coordinate):
+        # a test guarding the parametric values was lost.  This is a symptom, not a structural class of inputs: the
+        # number of cases it may excuse in one run is capped (KF_BUDGET).
         tags.append("tree_point_outside_feasible_region")
+        if info.get("bad_infeasible_at_guarded_leaf") == info.get("bad"):
+            tags.append("infeasible_point_at_guarded_solution_node")
     if obl in ("ok-false", "malformed"):
         if any(n["k"] == "D" and n["f"]["k"] != "B" and len(n["cons"]) >= 2 for n in walk_nodes(parse_tree(rec.tree))):
             tags.append("decision_node_with_several_tests_and_false_child")
@@ -259,7 +268,11 @@ def run(ctx):
         elif rp.get("case") is not None:
             first, last, fixed = rp["case"], rp["case"] + 1, False
     jpath, vpath = os.path.join(wd, "journal.txt"), os.path.join(wd, "verdicts.txt")
-    with open(jpath, "w") as out:
+    if os.environ.get("C07_JOURNAL"):          # development aid: judge a saved journal again
+        import shutil
+        shutil.copy(os.environ["C07_JOURNAL"], jpath)
+        fixed, first, last = False, 0, 0
+    with open(jpath, "a" if os.environ.get("C07_JOURNAL") else "w") as out:
         if fixed:
             rc, o, err = ctx.run([h, "--fixed", "1", "--cpu", "3"], timeout=600)
             if rc != 0:
@@ -316,6 +329,14 @@ def run(ctx):
         d.update(extra)
         return d
 
+    kf_cases = collections.defaultdict(set)      # finding id -> cases it excused in this run
+
+    def report(what, replay, record, case):
+        k = ctx.match_known(record)
+        if k is not None:
+            kf_cases[k["id"]].add(case)
+        return ctx.violation(what, replay, found_input=True, record=record)
+
     stats = collections.Counter()
     kinds_hist, strat_hist, shape_hist = collections.Counter(), collections.Counter(), collections.Counter()
     fail_classes = collections.Counter()
@@ -362,11 +383,11 @@ def run(ctx):
         if rk in reported:
             continue
         reported.add(rk)
-        ctx.violation(what, replay_of(r.case, {"prob": r.prob, "cs": r.cs, "solved": r.solved, "tree": r.tree,
-                                               "tree_text": r.text[:40], "details": D[r.ln][:40], "site": site, "tags": tags,
-                                               "ops_since_previous_solve": r.ops,
-                                               "previous_tree": r.prev.tree if r.prev else None}),
-                      found_input=True, record={"site": site, "tags": tags})
+        report(what, replay_of(r.case, {"prob": r.prob, "cs": r.cs, "solved": r.solved, "tree": r.tree,
+                                        "tree_text": r.text[:40], "details": D[r.ln][:40], "site": site, "tags": tags,
+                                        "ops_since_previous_solve": r.ops,
+                                        "previous_tree": r.prev.tree if r.prev else None}),
+               {"site": site, "tags": tags}, r.case)
 
     # crashes and exceptions
     timeouts = 0
@@ -405,10 +426,10 @@ def run(ctx):
                 pdim, pparams, pbig, prows = parse_rows(e["prev"].prob, e["prev"].cs)
                 tags += [x for x in history_tags(e["prev"], dim, params, rows[len(prows):], e["ops"]) if x not in tags]
         fail_classes[(site, w, tuple(tags))] += 1
-        ctx.violation("%s [case %d] %s during `%s`" % (site, e["case"], w, last_op),
-                      replay_of(e["case"], {"event": w, "ops": e["ops"], "prob": e["prob"], "cs": e["cs"], "site": site, "tags": tags,
-                                            "previous_tree": e["prev"].tree if e["prev"] else None}),
-                      found_input=True, record={"site": site, "tags": tags})
+        report("%s [case %d] %s during `%s`" % (site, e["case"], w, last_op),
+               replay_of(e["case"], {"event": w, "ops": e["ops"], "prob": e["prob"], "cs": e["cs"], "site": site, "tags": tags,
+                                     "previous_tree": e["prev"].tree if e["prev"] else None}),
+               {"site": site, "tags": tags}, e["case"])
 
     # A single solve that hits the CPU limit is inconclusive (DESIGN §4 (viii)).  A solver that stops returning on a
     # sizeable share of the problems is not: on the clean tree about 1 solve in 15 000 under PIVOT_ROW_STRATEGY_FIRST hits
@@ -421,6 +442,20 @@ def run(ctx):
                       replay_of(e["case"], {"event": e["what"], "ops": e["ops"], "prob": e["prob"], "cs": e["cs"],
                                             "site": "timeout-rate", "tags": []}),
                       found_input=True, record={"site": "timeout-rate", "tags": []})
+
+    # Known findings excuse the cases that fall into their class; a code change that multiplies such cases must not
+    # hide behind them.  Budget per finding = max(floor, factor x the share of cases measured on the unchanged tree
+    # over 40 000 cases); exceeding it is reported as a violation of its own (not excusable).
+    ngen = max(1, len(set(r.case for r in recs if r.case >= 0)))
+    for kid, cases in sorted(kf_cases.items()):
+        share, floor = KF_BUDGET.get(kid, (0.01, 5))
+        budget = max(floor, int(5 * share * ngen))
+        if len(cases) > budget:
+            c0 = sorted(cases)[0]
+            ctx.violation("known finding %s matches %d of %d cases in this run; the unchanged tree produces about %.2f %% "
+                          "(budget %d): the class of failures has grown" % (kid, len(cases), ngen, 100 * share, budget),
+                          replay_of(c0, {"finding": kid, "cases": sorted(cases)[:50]}), found_input=True, record=None)
+    ctx.cov["known_finding_cases"] = {k: len(v) for k, v in kf_cases.items()}
 
     for b in broken:
         ctx.violation("proof obligation broken: " + b, {"obligation": b}, found_input=False)
